@@ -47,7 +47,7 @@
        "persistent" inside the run (a persistent target is never re-pushed: stated behaviour).  No premise on
        transactions in flight is needed: between two complete invocations the agreement holds even then.
    Instance (Model/P2Pure.v): C04_lagging_delete_converges, C04_overlap_apply_refuted, C04_resync_order_nonwf_refuted
-   below the Section.  C04_lagging_delete_converges is the scenario of finding F-23 (repaired in /repo, commit 13d170a):
+   and the C04_*_P2Pure theorems (the instance meets the obligations for all well-formed values, see (2)) below the Section.  C04_lagging_delete_converges is the scenario of finding F-23 (repaired in /repo, commit 13d170a):
    /a/b = 1 applied; device unreachable; "delete /a" and "/a/c = 3" committed; device back, both applied; connection
    replaced once more.  Before the repair the recording loop of reconcileApply, visiting the tombstone of /a before the
    cascaded tombstone of /a/c, removed the former again (applyChangeToConfig dropped the deleted ancestors of EVERY
@@ -65,15 +65,35 @@
        value inlined in the entry beneath a tombstone of the map; a re-push in that state depends on the (Go map)
        order of its groups (C04_resync_order_nonwf_refuted) until the retried apply repairs it - a transaction is then
        still in flight, which the property text excludes.
-   (2) The pure-layer obligations are hypotheses.  For the instance they are evaluated by vm_compute on concrete
-       values (Proofs/P2_ConvergeEx.v: cascading delete, update with inlined values, re-creation beneath an applied
-       tombstone, delete with a lagging committed view, status updates with tombstones, re-push in both group orders,
-       idempotence; the apply examples in every Go map order of the recording) and on the worlds of a reachable
-       scenario; no general proof over P2Pure.v (sorting / pruning lemmas missing).  They FAILED for a delete applied
-       with a lagging committed view in one of the two orders of the recording (finding F-23, repaired; now
-       C04_lagging_delete_converges and apply_sound_lagging_delete in every order) and they FAIL for a change that
-       deletes a path and updates a leaf beneath it (C04_overlap_apply_refuted, device-side facet of the open finding
-       F-14-C03).
+   (2) The pure-layer obligations are premises of the theorems of the Section.  For the executable instance
+       (Model/P2Pure.v; abs_dev = sorted device leaves, abs_app = live leaves) they are now PROVED for all values
+       (Proofs/P2PureApply{Defs,Base,Sem,Sound,Status,Resync,Inst,Ex}.v) under boolean well-formedness predicates:
+         C04_apply_sound_P2Pure        apply_sound_at, every Go map order, every committed view, every device, if
+                                       wf_apply inl m ch := wf_pair inl m && wf_change ch && idx_compat m ch
+                                       (keys unique / key = path / paths proper in inl, m, ch; no LIVE value beneath a
+                                       tombstone in overlay inl m nor in ch - a delete beneath a delete is fine, this is
+                                       what a rollback of a re-creation looks like; a stored value and a change value of the
+                                       same path and index say the same, because store() skips equal indexes);
+         C04_status_sound_P2Pure       restore_sound_at, restore_cut_sound_at, inline_sound_at under wfk inl && wfk m only;
+         C04_apply_idem_P2Pure         unconditional (equality of the device lists);
+         C04_resync_sound_{empty,same}_P2Pure   under wfk va && no_live_below va; C04_resync_total_P2Pure;
+         C04_wf_initial_P2Pure, C04_record_applied_wf_P2Pure, C04_restore_wf_P2Pure, C04_inline_wf_P2Pure: the predicates hold
+                                       initially and for what an OK apply / a status update / the commit's inlining leave
+                                       behind (store() even leaves NO entry beneath a tombstone);
+         C04_apply_keeps_agreement_P2Pure, C04_cut_apply_retry_P2Pure, C04_resync_establishes_agreement_P2Pure,
+         C04_pure_ok_P2Pure            the protocol theorems with the instance plugged in: no obligation premise left, only the
+                                       well-formedness of the values of the step (wf_apply_at / wf_step);
+         C04_converged_P2Pure_partial  the run theorem over crun_wf (wf_step at every step): that wf_step is an INVARIANT of
+                                       the reachable worlds is not proved - wf_change and idx_compat of every proposal's
+                                       change are facts about the transaction layer, and the pair (inlined values, stored
+                                       map) right after the map write of a CUT status update can leave the domain
+                                       (C04_restore_cut_wf_refuted; what it stands for is unchanged there);
+         C04_wf_runs_P2Pure            crun_wf is checked step by step (run_ok, sound) on the F-23 scenario in every order and
+                                       on a run with cascade, re-creation beneath tombstones, rollback, new term.
+       Each hypothesis is needed: C04_overlap_apply_refuted (delete + update of related paths in one change: device-side
+       facet of the open finding F-14-C03), C04_apply_sound_live_below_refuted, C04_apply_sound_same_index_refuted,
+       C04_resync_live_below_refuted, C04_resync_order_nonwf_refuted.  The obligations FAILED before the repair of F-23 for a
+       delete applied with a lagging committed view (now covered by the general theorem: nothing is asked of the view).
    (3) "restricted to the transactions whose apply did not fail" is C04_applied_values_change_only (protocol level);
        that a refused change leaves no trace in the values is restore_sound_at.
    (4) "the stored configuration" of the text is the COMMITTED one; the theorems compare the device with the APPLIED
@@ -85,7 +105,8 @@
 From stdpp Require Import gmap.
 From RecordUpdate Require Import RecordUpdate.
 From Coq Require Import NArith.
-From OC Require Import Base.Bytes Model.P2Pure Model.Proto2 Proofs.P2Base Proofs.P2_Cursor Proofs.P2_Term Proofs.P2_Converge
+From OC Require Import Proofs.P2PureApplyDefs Proofs.P2PureApplyInst Proofs.P2PureApplyEx.
+From OC Require Import Base.Bytes Model.P2Pure Model.Proto2 Model.P2Inst Proofs.P2Base Proofs.P2_Cursor Proofs.P2_Term Proofs.P2_Converge
      Proofs.P2_ConvergeEx.
 Open Scope N_scope.
 
@@ -294,6 +315,148 @@ Theorem C04_resync_order_nonwf_refuted : exists r1 r2,
   abs_dev_i (fold_left dev_apply [r2; r1] []) = [(B "/a/b", B "1")].
 Proof. exact resync_order_matters_nonwf. Qed.
 
+
+(** the executable instance MEETS the pure-layer obligations: proved for ALL values satisfying the boolean
+    well-formedness predicates of Proofs/P2PureApplyDefs.v (proofs: Proofs/P2PureApply{Base,Sem,Sound,Status,Resync,Inst}.v)
+      wfk m          keys unique, key = path of the value, path neither "" nor "/"
+      no_live_below  no LIVE value beneath a tombstone
+      wf_pair inl m  := wfk inl && wfk m && no_live_below (overlay inl m)      (inlined applied values, stored applied map)
+      wf_change ch   := wfk ch && no_live_below ch                             (no delete + update of related paths: F-14)
+      idx_compat m ch   a stored value and a change value of the same path and index say the same
+      wf_apply inl m ch := wf_pair inl m && wf_change ch && idx_compat m ch    (NOTHING is asked of the committed view)
+    every Go map order [ord], every committed view [vw], every device state *)
+Theorem C04_apply_sound_P2Pure : forall ord i inl m vw ch req d,
+  wf_apply inl m ch = true ->
+  apply_sound_at overlay payload record_applied dev_apply nil abs_dev_i abs_app_i ord i inl m vw ch req d.
+Proof. exact P2PureApplyInst.apply_sound_inst. Qed.
+
+Theorem C04_status_sound_P2Pure : forall p : cmap * cmap,
+  wfk p.1 = true -> wfk p.2 = true -> status_sound_at overlay restore nil abs_app_i p.
+Proof. exact P2PureApplyInst.status_sound_inst. Qed.
+
+(* for every device state and every request, as lists *)
+Theorem C04_apply_idem_P2Pure : forall d req, apply_idem_at dev_apply abs_dev_i d req.
+Proof. exact P2PureApplyInst.apply_idem_inst. Qed.
+
+Theorem C04_resync_sound_empty_P2Pure : forall va reqs,
+  wfk va = true -> no_live_below va = true -> resync_sound_empty_at resync_payload dev_apply nil abs_dev_i abs_app_i va reqs.
+Proof. exact P2PureApplyInst.resync_sound_empty_inst. Qed.
+
+Theorem C04_resync_sound_same_P2Pure : forall va reqs d,
+  wfk va = true -> no_live_below va = true -> resync_sound_same_at resync_payload dev_apply abs_dev_i abs_app_i va reqs d.
+Proof. exact P2PureApplyInst.resync_sound_same_inst. Qed.
+
+Theorem C04_resync_total_P2Pure : resync_total resync_payload.
+Proof. exact P2PureApplyResync.resync_total_P2Pure. Qed.
+
+(* the predicates hold initially and are preserved by what the complete invocations store on the applied side: the record
+   of an OK apply (entry written: inline values cleared), a status update (entry written), the commit's inlining;
+   what store() leaves behind holds no entry at all beneath a tombstone *)
+Theorem C04_wf_initial_P2Pure : wf_pair [] [] = true /\ wf_apply [] [] [] = true.
+Proof. exact P2PureApplyInst.wf_initial. Qed.
+
+Theorem C04_record_applied_wf_P2Pure : forall ord i inl m vw ch,
+  wf_apply inl m ch = true ->
+  wf_pair [] (record_applied ord i m (overlay inl m) vw ch) = true /\
+  no_entry_below (record_applied ord i m (overlay inl m) vw ch) = true.
+Proof. exact P2PureApplySound.record_applied_wf. Qed.
+
+Theorem C04_restore_wf_P2Pure : forall inl m, wfk inl = true -> wfk m = true ->
+  wf_pair [] (restore m (overlay inl m)) = true /\ no_entry_below (restore m (overlay inl m)) = true /\
+  wfk (restore m (overlay inl m)) = true.
+Proof. exact P2PureApplyStatus.restore_wf. Qed.
+
+Theorem C04_inline_wf_P2Pure : forall inl m, wf_pair inl m = true -> wf_pair (overlay inl m) m = true.
+Proof. exact P2PureApplyStatus.inline_wf. Qed.
+
+(* NOT preserved: the pair between the map write and the entry write of a status update (wfk stays, no_live_below can go:
+   an inlined live value whose stored counterpart was a tombstone beneath a tombstone comes back through the overlay);
+   what the pair stands for is unchanged there (restore_cut_sound) *)
+Theorem C04_restore_cut_wf_refuted :
+  wf_pair P2PureApplyStatus.cut_inl P2PureApplyStatus.cut_m = true /\ wf_pair P2PureApplyStatus.cut_inl (restore P2PureApplyStatus.cut_m (overlay P2PureApplyStatus.cut_inl P2PureApplyStatus.cut_m)) = false /\
+  P2PureApplyDefs.abs_app (overlay P2PureApplyStatus.cut_inl (restore P2PureApplyStatus.cut_m (overlay P2PureApplyStatus.cut_inl P2PureApplyStatus.cut_m))) = P2PureApplyDefs.abs_app (overlay P2PureApplyStatus.cut_inl P2PureApplyStatus.cut_m).
+Proof. exact P2PureApplyStatus.restore_cut_wf_refuted. Qed.
+
+(* each hypothesis of wf_apply / of the re-push is needed *)
+Theorem C04_apply_sound_live_below_refuted :
+  wf_pair [] nlb_m = false /\ wfk nlb_m = true /\ P2PureApplyDefs.wf_change nlb_ch = true /\ idx_compat nlb_m nlb_ch = true /\
+  abs_dev_i [] = abs_app_i (overlay [] nlb_m) /\
+  payload 3 [] nlb_ch = Some (mkReq [] [(B "/a/b", B "0")]) /\
+  abs_dev_i (dev_apply [] (mkReq [] [(B "/a/b", B "0")])) = [(B "/a/b", B "0")] /\
+  abs_app_i (loaded overlay nil (record_applied 0 3 nlb_m (overlay [] nlb_m) [] nlb_ch)) = [(B "/a/b", B "0"); (B "/a/c", B "2")].
+Proof. exact P2PureApplyEx.apply_sound_live_below_refuted. Qed.
+
+Theorem C04_apply_sound_same_index_refuted :
+  wf_pair [] idx_m = true /\ P2PureApplyDefs.wf_change idx_ch = true /\ idx_compat idx_m idx_ch = false /\
+  abs_dev_i [(B "/a", B "1")] = abs_app_i (overlay [] idx_m) /\
+  payload 5 [] idx_ch = Some (mkReq [] [(B "/a", B "2")]) /\
+  abs_dev_i (dev_apply [(B "/a", B "1")] (mkReq [] [(B "/a", B "2")])) = [(B "/a", B "2")] /\
+  abs_app_i (loaded overlay nil (record_applied 0 5 idx_m (overlay [] idx_m) [] idx_ch)) = [(B "/a", B "1")].
+Proof. exact P2PureApplyEx.apply_sound_same_index_refuted. Qed.
+
+Theorem C04_resync_live_below_refuted : exists r,
+  resync_payload nlb_m = [Some (mkReq [B "/a"] []); Some r] /\ wfk nlb_m = true /\ no_live_below nlb_m = false /\
+  abs_app_i nlb_m = [] /\ abs_dev_i (fold_left dev_apply [mkReq [B "/a"] []; r] []) = [(B "/a/c", B "2")].
+Proof. exact P2PureApplyEx.resync_live_below_refuted. Qed.
+
+(** the protocol theorems with the instance plugged in: the obligation premises are gone, what remains is the
+    well-formedness of the values the step works on (wf_apply_at w t i: wf_apply of the applied values of t and the change of
+    proposal (t, i); wf_step w t l: wfk of both components and, per label, wf_apply_at / no_live_below of the applied view) *)
+Theorem C04_pure_ok_P2Pure : forall (w : Wd) t (l : Label),
+  wf_step w t l ->
+  pure_ok overlay payload record_applied restore resync_payload dev_apply nil nil nil abs_dev_i abs_app_i w t l.
+Proof. exact P2PureApplyInst.pure_ok_inst. Qed.
+
+Theorem C04_apply_keeps_agreement_P2Pure : forall (o : oracle) (w : Wd) t i m term r (k : nat),
+  wf_apply_at w t i -> i_sent_by_apply w o t i m term r COk -> (3 <= k)%nat -> i_agrees w t ->
+  let w' := p2_step w (LRec (CtlProp (t, i)) k o) in
+  i_agrees w' t /\ i_dstate_of w' t = dev_apply (i_dstate_of w t) r /\
+  exists (C : Cfg) (P : Prop2) (C' : Cfg), cfgs w !! t = Some C /\ props w !! (t, i) = Some P /\
+    cfgs w' !! t = Some C' /\ c_applied C' = i /\ c_applied C < i /\
+    aview overlay C' = record_applied (o_order o) i (c_avalues C) (aview overlay C) (view overlay C) (rb_change nil P) /\
+    c_state C' = c_state C /\ c_aterm C' = c_aterm C /\ c_term C' = c_term C /\
+    wfk (aview overlay C') = true /\ no_entry_below (aview overlay C') = true.
+Proof. exact P2PureApplyInst.apply_keeps_agreement_inst. Qed.
+
+Theorem C04_cut_apply_retry_P2Pure : forall (o o' : oracle) (w : Wd) t i m term r (k' : nat),
+  wf_apply_at w t i -> i_agrees w t -> i_sent_by_apply w o t i m term r COk ->
+  let w1 := p2_step w (LRec (CtlProp (t, i)) 1 o) in
+  i_dstate_of w1 t = dev_apply (i_dstate_of w t) r /\ cfgs w1 = cfgs w /\
+  (dev_answer (nil : dstate) w1 t term o' = COk -> (3 <= k')%nat ->
+   i_sent_by_apply w1 o' t i m term r COk /\ i_agrees (p2_step w1 (LRec (CtlProp (t, i)) k' o')) t).
+Proof. exact P2PureApplyInst.cut_apply_retry_inst. Qed.
+
+Theorem C04_resync_establishes_agreement_P2Pure :
+  forall (o : oracle) (w : Wd) t m term r (rs : list req) (k : nat) (C : Cfg),
+  wfk (c_ainline C) = true -> wfk (c_avalues C) = true -> no_live_below (aview overlay C) = true ->
+  i_sent_by_resync w o t m term r COk -> cfgs w !! t = Some C ->
+  resync_payload (aview overlay C) = map Some rs -> (length rs + 2 <= k)%nat ->
+  i_dstate_of w t = [] \/ i_agrees w t ->
+  let w' := p2_step w (LRec (CtlCfg t) k o) in
+  i_agrees w' t /\ i_dstate_of w' t = fold_left dev_apply rs (i_dstate_of w t) /\
+  exists C' : Cfg, cfgs w' !! t = Some C' /\ c_state C' = CSynchronized /\ c_aterm C' = c_term C' /\ c_term C' = c_term C /\
+             c_applied C' = c_applied C /\ c_applied C <> 0 /\ abs_app_i (aview overlay C') = abs_app_i (aview overlay C).
+Proof. exact P2PureApplyInst.resync_establishes_agreement_inst. Qed.
+
+(* partial: crun_wf = a run of environment labels and complete invocations in which wf_step holds at EVERY step; that
+   wf_step is an invariant of the reachable worlds is not proved (it is for single complete invocations on the applied
+   side: C04_record_applied_wf_P2Pure, C04_restore_wf_P2Pure, C04_inline_wf_P2Pure; wf_change / idx_compat of every
+   proposal's change and the cut states are open) *)
+Theorem C04_converged_P2Pure_partial : forall (w w' : Wd) t (C' : Cfg),
+  i_reach w -> i_conv w t -> crun_wf t w w' ->
+  cfgs w' !! t = Some C' -> c_state C' = CSynchronized -> c_aterm C' = c_term C' -> i_agrees w' t.
+Proof. exact P2PureApplyInst.converged_inst. Qed.
+
+(* crun_wf is decidable step by step (run_ok, sound: run_ok_crun_wf) and holds on non-trivial runs: the lagging-delete scenario
+   of F-23 in every Go map order, and a run with a cascading delete, a re-creation beneath the tombstones, the rollback of that
+   change (a delete beneath a delete), a connection loss and the re-push in a new term; the agreement at its end is then a
+   consequence of the theorem *)
+Theorem C04_wf_runs_P2Pure :
+  Forall (fun ord => run_ok 1 (lag_rest (x_oracle_ord ord)) (x_run lag_start) = true) ords6 /\
+  Forall (fun ord => run_ok 1 (big_rest (x_oracle_ord ord)) (x_run big_start) = true) [0; 1; 2; 5] /\
+  i_agrees (x_run (big_start ++ big_rest (x_oracle_ord 1))) 1.
+Proof. exact (conj P2PureApplyEx.lag_run_wf (conj P2PureApplyEx.big_run_wf P2PureApplyEx.big_run_agrees)). Qed.
+
 Print Assumptions C04_device_changes_only_by_ok_requests.
 Print Assumptions C04_device_state_is_fold.
 Print Assumptions C04_restart_empties.
@@ -315,3 +478,23 @@ Print Assumptions C04_converged_partial.
 Print Assumptions C04_lagging_delete_converges.
 Print Assumptions C04_overlap_apply_refuted.
 Print Assumptions C04_resync_order_nonwf_refuted.
+Print Assumptions C04_apply_sound_P2Pure.
+Print Assumptions C04_status_sound_P2Pure.
+Print Assumptions C04_apply_idem_P2Pure.
+Print Assumptions C04_resync_sound_empty_P2Pure.
+Print Assumptions C04_resync_sound_same_P2Pure.
+Print Assumptions C04_resync_total_P2Pure.
+Print Assumptions C04_wf_initial_P2Pure.
+Print Assumptions C04_record_applied_wf_P2Pure.
+Print Assumptions C04_restore_wf_P2Pure.
+Print Assumptions C04_inline_wf_P2Pure.
+Print Assumptions C04_restore_cut_wf_refuted.
+Print Assumptions C04_apply_sound_live_below_refuted.
+Print Assumptions C04_apply_sound_same_index_refuted.
+Print Assumptions C04_resync_live_below_refuted.
+Print Assumptions C04_pure_ok_P2Pure.
+Print Assumptions C04_apply_keeps_agreement_P2Pure.
+Print Assumptions C04_cut_apply_retry_P2Pure.
+Print Assumptions C04_resync_establishes_agreement_P2Pure.
+Print Assumptions C04_converged_P2Pure_partial.
+Print Assumptions C04_wf_runs_P2Pure.
